@@ -10,7 +10,7 @@ func init() {
 		},
 		Thor: func() []Inst {
 			return []Inst{inst("util", "VH_C29_next"), inst("util", "VH_C29_new"), inst("util", "VH_C29_state"),
-				inst("transactions", "VH_C29_store", 4), inst("transactions", "VH_C29_store", 5),
+				inst("transactions", "VH_C29_store", 4), Inst{Pkg: "transactions", Fn: "VH_C29_store", Args: []int64{5}, MaxPaths: 400000},
 				Inst{Pkg: "util", Fn: "VH_C29_concurrent_next", Args: []int64{3}, MaxPaths: 100000}, Inst{Pkg: "transactions", Fn: "VH_C29_concurrent_store", Args: []int64{3}, MaxPaths: 100000}}
 		},
 		Asserts: []string{"C29.next_returns_state", "C29.next_wraps", "C29.next_increments", "C29.next_stays_in_range", "C29.overflow_exactly_after_wrap",
@@ -75,7 +75,7 @@ func init() {
 				out = append(out, inst("transactions", "VH_C18_retry", 4, 1, fa), inst("transactions", "VH_C18_retry", 4, 2, fa), inst("transactions", "VH_C18_retry", 5, 0, fa))
 			}
 			out = append(out, inst("transactions", "VH_C18_timed", 4), inst("transactions", "VH_C18_timed", 5))
-			out = append(out, inst("transactions", "VH_C18_race", 3), inst("transactions", "VH_C18_timed_race", 3, 0), inst("transactions", "VH_C18_timed_race", 3, 1))
+			out = append(out, Inst{Pkg: "transactions", Fn: "VH_C18_race", Args: []int64{3}, MaxPaths: 200000}, Inst{Pkg: "transactions", Fn: "VH_C18_timed_race", Args: []int64{3, 0}, MaxPaths: 200000}, Inst{Pkg: "transactions", Fn: "VH_C18_timed_race", Args: []int64{3, 1}, MaxPaths: 200000})
 			out = append(out, Inst{Pkg: "client", Fn: "VH_C18_sleep_race", Args: []int64{2}, LoopBound: 2000, MaxPaths: 60000})
 			return out
 		},
